@@ -1,13 +1,13 @@
 import AfkakProofs.Producer.Spec
 /-! How the monitors' summary (`Track`) moves with a step, up to the fields the batch relation does
-not read (`fired`, `timersSinceReset`, `sends`, `nextSid`, `cancelledQueued`, `lateCancel`, `acct0`). -/
+not read (`fired`, `timersSinceReset`, `sends`, `nextSid`, `cancelledQueued`, `lateCancel`, `ex1`, `ex0`). -/
 namespace Afkak.Producer
 open Afkak.Consts Afkak.Monitor.ProducerTrace
 
 /-- forget the fields the batch relation does not read -/
 def norm (t : Track) : Track :=
   { t with fired := [], timersSinceReset := 0, sends := [], nextSid := 0, cancelledQueued := [],
-           lateCancel := false, acct0 := true }
+           lateCancel := false, ex1 := [], ex0 := [] }
 
 theorem norm_idem (t : Track) : norm (norm t) = norm t := rfl
 
